@@ -649,6 +649,20 @@ def run(case):
           (name, type(inside_exc).__name__,
            probes.scrub(str(inside_exc))[:200]))
       else:
+        # the displaced object is no longer "the original object" of that name:
+        # looking it up must not lead to the newcomer's configurable version
+        if t.get('obj') is not None:
+          try:
+            via_old = gin.get_configurable(t['obj'])
+            out = via_old()
+          except Exception:  # pylint: disable=broad-except
+            out = None      # "not registered" (or not callable bare): fine
+          if isinstance(out, tuple) and len(out) == 3 and out[0] == name:
+            v('C13.registry_version_configured',
+              ['displaced-object-reaches-newcomer'],
+              'after another function took the name of %s in interactive '
+              'mode, get_configurable(<the displaced object>)() calls the '
+              'newcomer: %r' % (name, out))
         registered[name] = {'obj': None, 'conf': None, 'shape': 'replaced',
                             'api': 'external', 'twin': None}
         for q in (name, 'sc/' + name):
